@@ -247,7 +247,7 @@ def scale_from_world(old_world, new_name: str = None, mass_scale: float = None, 
     prev_layer_radius = 0.
     for layer_name, layer_dict in old_world.config['layers'].items():
 
-        old_radius = layer_dict['radius']
+        old_radius = old_world.layers_by_name[layer_name].radius
         scaled_config['layers'][layer_name]['radius'] = radius_scale * old_radius
         scaled_config['layers'][layer_name]['radius_inner'] = prev_layer_radius
 
